@@ -60,8 +60,10 @@ template <class P> static bool shared_handles(int T, int rounds) {
   typedef nfl::poly_p<typename P::value_type, P::degree, P::nmoduli> H;
   bool ok = true;
   for (int r = 0; r < rounds * 20 && ok; r++) {
-    H base; for (size_t i = 0; i < P::degree; i++) base(0, i) = (typename P::value_type)(i + 1 + r);
-    std::vector<H*> hs; for (int t = 0; t < T; t++) hs.push_back(new H(base));
+    // exactly T owners of one payload (no extra owner kept alive by the harness)
+    std::vector<H*> hs; hs.push_back(new H());
+    for (size_t i = 0; i < P::degree; i++) (*hs[0])(0, i) = (typename P::value_type)(i + 1 + r);
+    for (int t = 1; t < T; t++) hs.push_back(new H(*hs[0]));
     std::vector<std::thread> th;
     for (int t = 0; t < T; t++) th.emplace_back([&, t] { H& mine = *hs[t]; mine(P::nmoduli - 1, P::degree - 1) = (typename P::value_type)(1000 + t); mine(0, t % P::degree) = (typename P::value_type)(7 + t); });
     for (auto& x : th) x.join();
@@ -76,11 +78,12 @@ template <class P> static bool shared_handles(int T, int rounds) {
       if (c(P::nmoduli - 1, P::degree - 1) != (typename P::value_type)(1000 + t)) ok = false;
       delete hs[t];
     }
-    H const& cb = base; for (size_t i = 0; i < P::degree; i++) if (cb(0, i) != (typename P::value_type)(i + 1 + r)) ok = false;
   }
   return ok;
 }
+static int g_mode = 0;   // 0 = everything, 1 = private-object workload only, 2 = shared-payload handles only
 template <class P> static void go(int T, int rounds, std::ostringstream& os) {
+  if (g_mode == 2) { os << "shared-handles=" << (shared_handles<P>(T, rounds) ? "isolated" : "CORRUPTED") << " "; return; }
   typedef nfl::tests::poly_tests_proxy<P> X;
   { P* warm = alloc_aligned<P, 32>(1); free_aligned(1, warm); }
   ull t0 = X::tables_digest();
@@ -92,14 +95,17 @@ template <class P> static void go(int T, int rounds, std::ostringstream& os) {
   for (auto& x : th) x.join();
   ull t2 = X::tables_digest();
   int ok = 0; for (int t = 0; t < T; t++) if (ref[t] == got[t]) ok++;
-  os << "ok=" << ok << "/" << T << " tables=" << ((t0 == t1 && t1 == t2) ? "unchanged" : "CHANGED") << " shared-handles=" << (shared_handles<P>(T, rounds) ? "isolated" : "CORRUPTED") << " ";
+  os << "ok=" << ok << "/" << T << " tables=" << ((t0 == t1 && t1 == t2) ? "unchanged" : "CHANGED") << " shared-handles=" << (g_mode == 1 ? "skipped" : (shared_handles<P>(T, rounds) ? "isolated" : "CORRUPTED")) << " ";
 }
 int main(int argc, char** argv) {
   int T = argc > 1 ? atoi(argv[1]) : 4, rounds = argc > 2 ? atoi(argv[2]) : 3;
+  g_mode = argc > 3 ? atoi(argv[3]) : 0;
   std::ostringstream os;
   go<nfl::poly<uint16_t, 64, 2> >(T, rounds, os);
   go<nfl::poly<uint32_t, 256, 3> >(T, rounds, os);
   go<nfl::poly<uint64_t, 128, 2> >(T, rounds, os);
+  // a large payload makes the copy in detach() long enough for another thread's write to land inside it if isolation is broken
+  if (g_mode != 1) os << "shared-handles-large=" << ((shared_handles<nfl::poly<uint32_t, 32768, 1> >(2, 6) && shared_handles<nfl::poly<uint32_t, 32768, 1> >(3, 2)) ? "isolated" : "CORRUPTED") << " ";
   puts(os.str().c_str());
   return 0;
 }
